@@ -493,7 +493,9 @@ def stub_module(interp, name):
         # a read-only view of a dict: reads behave like the dict; writes through the view raise TypeError in Python and are
         # not modelled (the view is returned as the dict itself, code writing through it would be misjudged - none does)
         def mapping_proxy(interp, d):
-            interp.ctx.trusted.add("types.MappingProxyType(d) is modelled as d itself (reads only; a write through the view is not modelled)")
+            ctx = getattr(interp, "ctx", None)
+            if ctx is not None and hasattr(ctx, "trusted"):
+                ctx.trusted.add("types.MappingProxyType(d) is modelled as d itself (reads only; a write through the view is not modelled)")
             return d
         m.ns["MappingProxyType"] = _b("types.MappingProxyType")(mapping_proxy)
         return m
